@@ -269,6 +269,43 @@ def run(db, tier):
     rep.check(bool(lang_cmp), "R-ALIAS-LANG", "resolve|language-compared", r.loc, "the alias language is compared with the rib's language",
               "RibStacks::resolve no longer compares alias_language with the mapfile rib's language")
 
+    # path rule: from the point where the rib is known to be a Mapfile rib, the successful return is reachable only
+    # through the language comparison (a mapfile alias is never accepted without comparing languages, also when the
+    # use site has no language, i.e. in a const context)
+    mf_blocks = []
+    for bi, b in enumerate(r.blocks):
+        for s_ in b["s"]:
+            txt = str(s_.get("o", "")) + str(s_.get("p", ""))
+            if "Mapfile" in txt and "language" in txt:
+                mf_blocks.append(bi)
+    cmp_blocks = set(c["bb"] for c in lang_cmp)
+    ok_ret = [bi for bi, b in enumerate(r.blocks) for s_ in b["s"] if s_["r"] == "agg" and (s_.get("adt") or "").endswith("Result::Ok")]
+    hdrs = set(headers)
+    okp = bool(mf_blocks) and bool(cmp_blocks) and bool(ok_ret)
+    for mb in mf_blocks:
+        reach = r.reachable_from(mb, avoid=cmp_blocks | hdrs)
+        if any(o in reach for o in ok_ret):
+            okp = False
+    rep.check(okp, "R-ALIAS-LANG", "resolve|no mapfile alias without the comparison", r.loc,
+              "every path from a Mapfile rib hit to Ok passes the language comparison",
+              "a mapfile alias can be returned on a path that skips the language comparison (e.g. when the use site has no language): "
+              "register / instruction aliases become visible in const contexts or other languages")
+
+    # innermost-first walk
+    revs = [t for _, t in r.calls() if t.get("f", "").endswith("IntoIterator::into_iter") and "Rib" in " ".join(t.get("ga") or [])]
+    rep.check(bool(revs) and all("adapters::rev::Rev<" in (t.get("ga") or [""])[0] for t in revs), "R-RIB-ORDER", "resolve|innermost first", r.loc,
+              "the rib stack is walked in reverse (innermost rib first)", "the rib stack is not walked innermost-first: outer declarations shadow inner ones")
+    # which rib kinds hold locals (these are the ones a function / const boundary hides)
+    hl = db.fn("resolve::rib::RibKind::holds_locals")
+    rep.fn(hl)
+    mt = arms.first_match(hl, db)
+    tab = {}
+    for arm in (mt["arms"] if mt else []):
+        for sg in arms.pat_sig(arm["p"]):
+            tab[(sg or "_").rsplit("::", 1)[-1]] = arms.abstract(arm["b"])[1] if arms.abstract(arm["b"])[0] == "lit" else "?"
+    rep.check(tab.get("Locals") == "true" and tab.get("Params") == "true" and tab.get("_", "false") == "false", "R-BARRIER", "holds_locals|table", hl.loc,
+              "Locals and Params are the local-holding ribs", "holds_locals is %s: locals or parameters leak into nested functions / consts" % tab)
+
     # ---------------- R-RIB-ORDER
     g = db.fn("context::defs::Defs::initial_ribs")
     rep.fn(g)
